@@ -68,6 +68,8 @@ fn step_op(p: u64, i: usize) -> Value {
         (3, 4) => c(json!({"e": "call", "op": "set", "a": 2, "k": "s", "i": 1, "b": 1})),
         (3, 5) => c(json!({"e": "call", "op": "drop", "o": 1})),
         (3, 6) => c(json!({"e": "call", "op": "drop", "o": 2})),
+        (5, 1) => c(json!({"e": "call", "op": "new", "o": 1})),
+        (5, 2) => c(json!({"e": "call", "op": "set", "a": 1, "k": "s", "i": 1, "b": 1})),
         (4, 1) => c(json!({"e": "call", "op": "setcfg", "auto": true, "pn": 1, "pd": 10, "bt": 0})),
         (4, 2) => c(json!({"e": "call", "op": "new", "o": 1})),
         (4, 3) => c(json!({"e": "call", "op": "new", "o": 2})),
